@@ -23,6 +23,8 @@ typedef struct simrng {
     /* counters */
     uint64_t calls, ok_calls, bytes, eintr, eagain, perm;
     volatile long *perm_observer; /* when set: incremented for every permanent failure delivered (may live in shared memory) */
+    void (*on_call)(void *ctx);   /* when set: called at the start of every request to the source (getrandom or device) */
+    void *on_call_ctx;
 } simrng_t;
 
 simrng_t *simrng_cur(void);          /* state used by the calling thread */
